@@ -63,6 +63,39 @@ static bool mentions_objects(const BP &b)
   return false;
 }
 
+
+// Flaws are expanded first-in first-out and an atom is only offered unification with atoms whose flaw is already expanded.
+// Reading the goal/fact statements in the opposite order flips the expansion order of two atoms exactly when they sit at the
+// same depth of the causal graph under different top-level statements. True when the solution unifies such a pair.
+static bool flipped_unification(const Listener &l, const Checker &ck)
+{
+  std::map<const ratio::atom *, const ratio::flaw *> fl;
+  for (auto *f : l.flaws)
+    if (auto *af = dynamic_cast<const ratio::atom_flaw *>(f))
+      fl[&af->get_atom()] = f;
+  auto locate = [](const ratio::flaw *f, int &depth) -> const ratio::flaw *
+  {
+    depth = 0;
+    while (f && !f->get_causes().empty() && depth < 1000)
+    {
+      f = &f->get_causes().front()->get_effect();
+      ++depth;
+    }
+    return f;
+  };
+  for (auto &up : ck.unified_pairs)
+  {
+    auto a = fl.find(up.first), t = fl.find(up.second);
+    if (a == fl.end() || t == fl.end())
+      continue;
+    int da = 0, dt = 0;
+    const ratio::flaw *ra = locate(a->second, da), *rt = locate(t->second, dt);
+    if (da == dt && ra != rt)
+      return true;
+  }
+  return false;
+}
+
 static void run_cmd(const sim::Cmd &c, sim::Out &out)
 {
   const std::string prop = c.str("prop", "C01");
@@ -128,6 +161,7 @@ static void run_cmd(const sim::Cmd &c, sim::Out &out)
   bool ended = false;
   bool primary_nested = false;
   bool witness_late_unification = false;
+  bool primary_flipped_unification = false;
   bool resolve_unchanged = false; // the negative answer came from re-solving an unchanged problem (see KF-P5)
   int last_solved_unit = -1;
   int verdict = -1; // of the whole history: 1 = every solve() succeeded, 0 = a negative answer, -1 = none (discarded, violation)
@@ -248,6 +282,7 @@ static void run_cmd(const sim::Cmd &c, sim::Out &out)
     Checker ck(*s, b.m, *l);
     ck.check_all(units_read);
     primary_nested = ck.nested_zero_length;
+    primary_flipped_unification = flipped_unification(*l, ck);
     for (auto &p : ck.cnt.c)
       cnt.inc(p.first, p.second);
     for (auto *f : l->flaws)
@@ -281,9 +316,9 @@ static void run_cmd(const sim::Cmd &c, sim::Out &out)
   // tautology added. A verdict only counts when the search ended; a positive one only when the solution checks.
   if ((prop == "C02" || c.num("variants", 0)) && status == "OK" && viols.empty() && verdict >= 0 && c.num("variants", 1) != 0)
   {
-    for (int k = 0; k < 3 && viols.empty(); ++k)
+    for (int k = 0; k < 4 && viols.empty(); ++k)
     {
-      const std::string text = k < 2 ? b.variant(seed * 31 + static_cast<uint64_t>(k), k == 1) : b.variant_with_dead_disjunct();
+      const std::string text = k < 2 ? b.variant(seed * 31 + static_cast<uint64_t>(k), k == 1) : (k == 2 ? b.variant_with_dead_disjunct() : b.variant_reversed_formulas());
       if (text.empty())
         continue;
       ratio::solver *s2 = new ratio::solver();
@@ -318,6 +353,9 @@ static void run_cmd(const sim::Cmd &c, sim::Out &out)
       cnt.inc("p7c.variants_run");
       log.ev("variant " + std::to_string(k) + " -> " + std::to_string(v2));
       bool witness_nested = primary_nested;
+      bool witness_flipped_unification = k == 3 && verdict == 1 && primary_flipped_unification;
+      if (v2 == 1 && k == 3)
+        cnt.inc("p7c.reversed_formulas_solved");
       if (v2 == 1)
       { // only a solution that checks is a witness
         Checker ck2(*s2, b.m, *l2);
@@ -328,6 +366,8 @@ static void run_cmd(const sim::Cmd &c, sim::Out &out)
           continue;
         }
         witness_nested = ck2.nested_zero_length;
+        if (k == 3)
+          witness_flipped_unification = flipped_unification(*l2, ck2);
         // does the witness unify some atom with one that the history read only after a solve() had already run?
         if (verdict == 0 && last_solved_unit >= 0)
         {
@@ -354,7 +394,7 @@ static void run_cmd(const sim::Cmd &c, sim::Out &out)
         continue;
       }
       const std::string whole = one_line(text).substr(0, 500);
-      const std::string how_variant = k == 2 ? std::string("read as one unit with one more, unachievable disjunct in every disjunction") : std::string("read as one unit with its independent constraints reordered") + (k == 1 ? " and a tautology added" : "");
+      const std::string how_variant = k == 3 ? std::string("read as one unit with its goal/fact/disjunction statements in the opposite order") : k == 2 ? std::string("read as one unit with one more, unachievable disjunct in every disjunction") : std::string("read as one unit with its independent constraints reordered") + (k == 1 ? " and a tautology added" : "");
       std::string msg;
       if (verdict == 0)
         msg = "the planner answered '" + verdict_how + "' but the same problem, " + how_variant + ", is solved and that solution checks | problem: " + whole;
@@ -364,6 +404,8 @@ static void run_cmd(const sim::Cmd &c, sim::Out &out)
         msg = "[the witness places a zero-length atom strictly inside another atom of the same state variable] " + msg;
       if (verdict == 0 && witness_late_unification)
         msg = "[the witness unifies a sub-goal with an atom that the history read only after a solve() had expanded that sub-goal] " + msg;
+      if (witness_flipped_unification)
+        msg = "[the witness unifies an atom with one whose flaw, in the other formulation's statement order, is expanded after it] " + msg;
       if (verdict == 0 && resolve_unchanged)
         msg = "[solve() answered false when it was called again, after a successful solve() and a return to root level, on a problem nothing had been added to] " + msg;
       PViolation v{"P7", "P7.equivalent_formulations_differ", msg};
